@@ -1490,3 +1490,94 @@ func init() {
 	}
 	props["C06"].parallel = 16
 }
+
+// ------------------------------------------------------------------ C17: independent clients and codec calls run concurrently
+func runSub(c string) string {
+	switch {
+	case strings.HasPrefix(c, "S "):
+		sc := parseSession(c)
+		return sessionLine(sc, runSession(sc))
+	case strings.HasPrefix(c, "W "):
+		// rscp.Write / rscp.Read on this goroutine's own cipher states (the shared clock is fixed for the whole run)
+		key, iv, crc, _, _, ms := parseW(c)
+		m := encrypter(key, iv)
+		ct, err := rscp.Write(&m, ms, crc)
+		if err != nil {
+			return "ERR"
+		}
+		p := crypt(decrypter(key, iv), ct)
+		rt := implFeed(key, iv, [][]byte{ct})
+		return fmt.Sprintf("c=%s p=%s rt=%s", hx(ct), hx(p), rt[len(rt)-1])
+	}
+	return "?"
+}
+
+func init() {
+	props["C17"] = &prop{
+		rule: "k in {2,4,8,16} goroutines at the same time under the race detector, each either a whole client session against its own TCP device (several exchanges, a reconnect) or a loop of rscp.Write/rscp.Read on its own cipher states, with randomised start skew; every goroutine's results must equal the model's sequential prediction for that session/loop and the race detector's report must be empty; non-trivial = every run; distinct by case line",
+		gen: func(tier string, r *rng, emit func(string)) {
+			n := tierPick(tier, 50, 1000)
+			for i := 0; i < n; i++ {
+				k := []int{2, 4, 8, 16}[i%4]
+				var subs []string
+				for j := 0; j < k; j++ {
+					if r.intn(2) == 0 {
+						sc := tcpSession(r)
+						sc.key = string(r.bytes(1 + r.intn(20)))
+						var nonce uint32
+						blocks := func() int { return 1 + r.intn(3) }
+						nx := 1 + r.intn(4)
+						sc.conns = [][]reaction{healthyConn(r, &sc, nx, &nonce, blocks), healthyConn(r, &sc, 2, &nonce, blocks)}
+						for q := 1; q <= nx; q++ {
+							sc.calls = append(sc.calls, nonceRequest(uint32(q)))
+						}
+						sc.calls = append(sc.calls, "disc", nonceRequest(uint32(nx+1)))
+						subs = append(subs, sc.line())
+					} else {
+						ms := genMsgs(r, 3, 200, false)
+						subs = append(subs, fmt.Sprintf("W %s - %s %d %d %s", hx(r.bytes(1+r.intn(32))), b01(r.bool()), tcpSec, tcpNsec, sxs(ms)))
+					}
+				}
+				emit(fmt.Sprintf("CONC %d %d | %s", k, r.intn(1000), strings.Join(subs, " ## ")))
+			}
+		},
+		run: func(c string) string {
+			parts := strings.SplitN(c, " | ", 2)
+			var skew int
+			fmt.Sscan(strings.Fields(parts[0])[2], &skew)
+			subs := strings.Split(parts[1], " ## ")
+			rscp.Now = func() time.Time { return time.Unix(tcpSec, tcpNsec) }
+			out := make([]string, len(subs))
+			done := make(chan int, len(subs))
+			for i := range subs {
+				go func(i int) {
+					defer func() {
+						if rec := recover(); rec != nil {
+							out[i] = "PANIC " + fmt.Sprint(rec)
+						}
+						done <- i
+					}()
+					time.Sleep(time.Duration((i*skew)%700) * time.Microsecond)
+					reps := 1
+					if strings.HasPrefix(subs[i], "W ") {
+						reps = 20 // a loop of codec calls
+					}
+					for k := 0; k < reps; k++ {
+						out[i] = runSub(subs[i])
+					}
+				}(i)
+			}
+			for range subs {
+				<-done
+			}
+			return strings.Join(out, " ## ")
+		},
+		pred: func(c, res string) string {
+			if strings.HasPrefix(res, "PANIC") || res == "HANG" || strings.Contains(res, "## PANIC") {
+				return "concurrent use: " + shorten(res, 200)
+			}
+			return ""
+		},
+		class: func(c, res string) string { return "goroutines:" + strings.Fields(c)[1] },
+	}
+}
